@@ -882,6 +882,35 @@ def eve_boundary_note(rng):
 
 # ----------------------------------------------------------------------------------------------------------------------
 
+def eve_large_k_checks():
+    """the batch-count rule for LARGE k (a metric many orders of magnitude below its base value, e.g. a loss that has reached round-off):
+    min(n_0 * 2^k, n_max) in exact integer arithmetic - evaluated on the real class with values half-way between two boundaries"""
+    from neurodiffeq.callbacks import EveCallback
+
+    class S:
+        pass
+    bad = []
+    for p, v0 in ((0.5, 1.0), (0.1, 1.0), (0.5, 2.0 ** 30), (0.25, 3.0), (2.0, 1.0), (10.0, 1.0e-3)):
+        for k in (20, 31, 32, 40, 62, 63, 64, 65, 70, 100, 200, 300):
+            v = v0 * p ** (k + 0.5)
+            if not (0.0 < v < float('inf')):
+                continue
+            for n0, nmax in ((1, 1000), (3, 2 ** 66), (1, None), (5, 7)):
+                s = S()
+                s.metrics_history = dict(train_loss=[v])
+                s.n_batches = dict(train=1, valid=1)
+                try:
+                    EveCallback(base_value=v0, double_at=p, n_0=n0, n_max=nmax)(s)
+                    got = s.n_batches['train']
+                except Exception as e:
+                    got = f'{type(e).__name__}: {e}'
+                want = n0 * 2 ** k if nmax is None else min(n0 * 2 ** k, nmax)
+                if not (isinstance(got, (int,)) or hasattr(got, '__index__')) or int(got) != want:
+                    bad.append(dict(script=dict(family='eve, large k', base_value=v0, double_at=p, n_0=n0, n_max=nmax, metric_value=v, k=k),
+                                    violated=[f'n_batches = {got}, rule gives min({n0} * 2^{k}, {nmax}) = {want}']))
+    return bad[:6]
+
+
 def frozen_parameter_checks():
     """set-once optimiser actions "leave the solver training every distinct parameter once per step": also parameters that are frozen
     (requires_grad=False) at the moment of the switch and unfrozen later - they must be registered with the new optimiser"""
@@ -981,6 +1010,7 @@ def check(tier, seed):
     t_real = time.time() - t_real - driver_s
     driver_s += flush()
     failing += frozen_parameter_checks()
+    failing += eve_large_k_checks()
     # malformed stream
     mal_blocks, mal_real = [], []
     for name, line, ctor, exc in MALFORMED:
